@@ -263,7 +263,7 @@ func c01Resolver(c *vlib.Ctx, b *builtDAG, data datastore.DataService, tk storag
 		total *= 3
 	}
 	place := make([]int, n)
-	var evals, st int64
+	var evals, st, nontriv int64
 	for code := 0; code < total; code++ {
 		x := code
 		var entries []int
@@ -285,7 +285,7 @@ func c01Resolver(c *vlib.Ctx, b *builtDAG, data datastore.DataService, tk storag
 				}
 			}
 			if nEnt >= 2 {
-				c.Nontrivial(fmt.Sprintf("%s|%d|%d", b.spec, code, v))
+				nontriv++ // (DAG, placement code, queried version) triples are distinct by construction
 			}
 			for oi, ord := range orders {
 				keys := make([]storage.Key, len(ord))
@@ -350,6 +350,7 @@ func c01Resolver(c *vlib.Ctx, b *builtDAG, data datastore.DataService, tk storag
 		}
 	}
 	c.Eval(evals)
+	c.NontrivialDistinct(nontriv)
 	atomic.AddInt64(states, st)
 }
 
